@@ -294,16 +294,17 @@ where
         }
     });
 
-    let mut child = conn.child.take().unwrap();
+    // only connections that spawned a command have a child to watch
+    let child_watch = conn.child.take().map(|mut child| {
+        thread::spawn({
+            let tx_end = tx_end;
 
-    let child_watch = thread::spawn({
-        let tx_end = tx_end;
-
-        move || {
-            let r = child.wait();
-            tx_end.send(3).expect("channel should be open");
-            r
-        }
+            move || {
+                let r = child.wait();
+                tx_end.send(3).expect("channel should be open");
+                r
+            }
+        })
     });
 
     let end_tid = rx_end.recv()?;
@@ -344,6 +345,7 @@ where
         }
         3 => {
             let cr = child_watch
+                .expect("only the child watcher sends 3")
                 .join()
                 .unwrap_or_else(|_| Err(io::Error::from(io::ErrorKind::BrokenPipe)));
 
